@@ -71,6 +71,11 @@ def _base(rng):
         "low_memory": rng.random() < 0.15,
         "login_fault": rng.random() < 0.12,
         "rerun": rng.random() < 0.12,
+        "lr_sched": rng.choice(["plateau", "plateau", "step", "both_null", "null"]),
+        "optimizer": rng.choice(["Adam", "Adam", "AdamW"]),
+        "early_null": rng.random() < 0.2,  # trainer_config.early_stopping: null (the schema's default)
+        "crop_auto": rng.random() < 0.4,  # centered-instance: crop size derived from the labels
+        "min_crop_size": rng.choice([None, 32, 40]),
     }
 
 
@@ -82,13 +87,13 @@ def gen_plan(rng, index, tier):
         p.update(ENUM_CONFIGS[index])
         p.update({"mode": "virtual", "fault_at": None, "data": "synthetic", "epochs": 1, "save_last": True,
                   "delete_chunks": True, "explicit_chunks": True, "tmp_same_fs": False, "wandb_mode": None,
-                  "low_memory": False, "login_fault": False, "rerun": False})
+                  "low_memory": False, "login_fault": False, "rerun": False, "lr_sched": "plateau", "optimizer": "Adam", "crop_auto": False, "min_crop_size": None, "early_null": False})
     elif index < len(ENUM_CONFIGS) + n_enum:
         k = index - len(ENUM_CONFIGS)
         p.update(ENUM_CONFIGS[k // ENUM_EVENTS])
         p.update({"mode": "crash", "fault_at": k % ENUM_EVENTS, "data": "synthetic", "epochs": 1, "save_last": True,
                   "delete_chunks": True, "explicit_chunks": True, "tmp_same_fs": False, "wandb_mode": None,
-                  "low_memory": False, "login_fault": False, "rerun": False})
+                  "low_memory": False, "login_fault": False, "rerun": False, "lr_sched": "plateau", "optimizer": "Adam", "crop_auto": False, "min_crop_size": None, "early_null": False})
     else:
         r = rng.random()
         if r < 0.45:
